@@ -691,13 +691,65 @@ func c13PlantedMessage(class, msg string) bool {
 // construction (a literal pattern that is not a regexp, a non-name after a
 // dot, a string literal that is not closed on its line), laid out over several
 // lines so that "the token after" is on another line.
+// c13RewrittenMembership: a run-time failure inside `x in a..b` / `x in [..]`
+// (the declared int holds something else at run time, which a map environment
+// allows) is located at the `in`, also when the optimizer has rewritten it.
+func c13RewrittenMembership(c *runner.Ctx, r *runner.Rng) {
+	pre := r.Pick([]string{"Ok and\n ", "Ok and ", "Ok and\n\t"})
+	op := r.Pick([]string{"in", "not in"})
+	right := r.Pick([]string{"1..3", "[1, 2, 3]", "2..2"})
+	src := pre + "A " + op + " " + right
+	off := len(pre) + 2
+	wantLine, wantCol := 1, 0
+	for _, ru := range src[:off] {
+		if ru == '\n' {
+			wantLine, wantCol = wantLine+1, 0
+		} else {
+			wantCol++
+		}
+	}
+	c.Begin(src)
+	for _, optimize := range []bool{true, false} {
+		p, co := SafeCompile(src, expr.Env(map[string]interface{}{"Ok": true, "A": 0}), expr.Optimize(optimize))
+		c.Eval(1)
+		if co.Failed() {
+			return
+		}
+		for _, bad := range []interface{}{"2", nil, 2.5, []int{1}} {
+			o := SafeRun(p, map[string]interface{}{"Ok": true, "A": bad})
+			c.Eval(1)
+			if o.Err == nil || o.Panic != nil {
+				continue
+			}
+			c.SetAdd("fault_classes", "runtime-wrong-type-in-membership")
+			cas := map[string]interface{}{"source_quoted": fmt.Sprintf("%q", src), "optimize": optimize, "value_of_A": fmt.Sprintf("%#v", bad), "error": o.Err.Error(), "expected_line": wantLine, "expected_column": wantCol}
+			fe := asFileError(o.Err)
+			if fe == nil || fe.Location.Empty() {
+				c.Violate("no-location:runtime-wrong-type-in-membership", "the error carries no source location: "+firstLine(o.Err.Error()), cas)
+				return
+			}
+			if fe.Line != wantLine || fe.Column != wantCol {
+				c.Violate("wrong-position:runtime-wrong-type-in-membership", fmt.Sprintf("error reported at (%d,%d), the operator %q is at (%d,%d)", fe.Line, fe.Column, op, wantLine, wantCol), cas)
+				return
+			}
+			c.Count("positions_exact", 1)
+		}
+	}
+}
+
 func c13SyntaxFixed(c *runner.Ctx, idx uint64) {
 	r := c.R
+	if idx%8 == 0 {
+		c13RewrittenMembership(c, r)
+	}
 	pre := r.Pick([]string{"", "A > 0 and", "P or", "[1, 2] == Ints ? 1 :", "not"})
 	post := r.Pick([]string{"", "and true", "or Q", "== P"})
 	sep := func() string { return r.Pick([]string{" ", "\n", "\n  ", " \n\t", "\r\n", "  "}) }
 	var src, class, token string
-	switch idx % 3 {
+	switch idx % 4 {
+	case 3:
+		token = r.Pick([]string{`"abc\`, `'x\`})
+		src, class = pre+sep()+"S =="+sep()+"\x01"+token+"\n\" + S"+sep()+post, "escape-before-line-end"
 	case 0:
 		token = r.Pick([]string{`"["`, `"a(b"`, `"*"`, `'[a-'`})
 		src, class = pre+sep()+"S"+sep()+"matches"+sep()+"\x01"+token+sep()+post, "invalid-regexp-literal"
@@ -741,7 +793,7 @@ func c13SyntaxFixed(c *runner.Ctx, idx uint64) {
 	}
 	cas["reported_line"], cas["reported_column"], cas["message"] = fe.Line, fe.Column, fe.Message
 	c.Distinct(src)
-	if class == "unterminated-string-literal" {
+	if class == "unterminated-string-literal" || class == "escape-before-line-end" {
 		// the lexer reports the end of the literal (pinned by its own tests for
 		// the single-line case): the line must be the literal's, the column
 		// inside or just after it
